@@ -170,6 +170,7 @@ def _model_opts(o, query_item_filter=None):
     m = {k: o[k] for k in BOOL_OPTS if k != "infer_redirection"}
     m["strip_fragment"] = o["strip_fragment"] if isinstance(o["strip_fragment"], bool) else "except-routing"
     m["quoted"] = o["quoted"]
+    m["lowercase"] = bool(o.get("lowercase", False))
     m["query_item_filter"] = query_item_filter
     return m
 
@@ -265,7 +266,7 @@ def fp_ops(url, strip_suffix=False, platform_aware=False):
     # the accessor results / walk start of the *real* intermediates, keyed by the intermediate
     # (the model must arrive at the same key, else the lookup fails and the outputs differ)
     try:
-        t = normalize_url(low, unsplit=False, query_item_filter=lang_query_item_filter, platform_aware=platform_aware)
+        t = normalize_url(low, unsplit=False, query_item_filter=lang_query_item_filter, platform_aware=platform_aware, lowercase=True)
     except Exception:  # noqa
         t = None
     if t is not None and not isinstance(t, str):
